@@ -475,6 +475,170 @@ def conv_analysis(line, st):
 ENGINES["analysis"] = {"imports": "Str Label Path Analysis", "gen": gen_analysis, "conv": conv_analysis}
 
 
+# ------------------------------------------------------------------ engine select (Graph.v, Select.v; ocaml/select/driver.ml)
+def gen_select(rng, n):
+    import c20
+    import selectlib as sl
+    lines = []
+    while len(lines) < n:
+        nodes = sl.gen_world(rng, nmax=10, files=rng.chance(1, 2), nocache=rng.chance(1, 4))
+        en = sl.enc_nodes(nodes)
+        for _ in range(4):
+            cfg = sl.gen_cfg(rng, nodes)
+            if rng.chance(1, 15):
+                cfg["pats"] = cfg["pats"] + [rng.choice(["nocolon", "//a:", ":a b", "//a...b"])]
+            ec, k, i = sl.enc_cfg(cfg), rng.below(12), rng.below(len(nodes))
+            if k < 5:
+                lines.append("%s\t%s\t%s" % (["select", "selectspec", "selcost", "roots", "list"][k], en, ec))
+            elif k < 8:
+                lines.append("%s\t%s\t-\t%d" % (["ancestors", "descendants", "direct"][k - 5], en, i))
+            else:
+                lines.append(c20.model_line(nodes, c20.gen_queries(rng, nodes, 1)[0]))
+        g = rng.choice([sl.ladder(1 + rng.below(3), 1 + rng.below(4)), sl.chain(1 + rng.below(12)), sl.dense(2 + rng.below(7)),
+                        sl.dense_k(4 + rng.below(8), 3), [nd["deps"] for nd in nodes], [[1], [0]], [[], [5]]])
+        top, bottom = (len(g) - 1, 0) if rng.chance(3, 4) else (rng.below(len(g)), rng.below(len(g)))
+        lines.append("%s\t%s\t%d\t%d" % (rng.choice(["cost", "costv", "sets"]), sl.graphspec(g), top, bottom))
+        if rng.chance(1, 3):
+            lines.append(rng.choice(["family\tladder\t%d\t%d" % (rng.below(4), rng.below(5)), "family\tchain\t%d" % rng.below(14)]))
+    return lines[:n]
+
+
+def conv_select(line, st):
+    f = line.split("\t")
+    s = lambda h: intern(st, unhx(h), 6)
+    dots = lambda x: csv(x, ".")
+
+    def nodes(x):
+        ns, g = [], []
+        for nd in csv(x):
+            k, pkg, name, tags, plats, bn, deps, inputs = nd.split(":")
+            ns.append(app("mkNode", "KAlias" if k == "a" else "KTarget", app("mkLabel", s(pkg), s(name)), gl([s(t) for t in dots(tags)]),
+                          gl([s(t) for t in dots(plats)]), gb(bn == "1"), gl([s(t) for t in dots(inputs)])))
+            g.append(gl([gn(d) for d in dots(deps)]))
+        return gl(ns), gl(g)
+
+    def cfg(x):
+        cur, pats, tags, excl, ty, plat, al = x.split(":")
+        return app("mkRaw", s(cur), gl([s(t) for t in dots(pats)]), gl([s(t) for t in dots(tags)]), gl([s(t) for t in dots(excl)]),
+                   {"test": "TestOnly", "no_test": "NonTestOnly", "bin_output": "BinOutput", "all": "AllTargets"}[ty], s(plat), gb(al == "1"))
+
+    def graph(x):
+        return gl([gl([] if ds == "-" else [gn(d) for d in dots(ds)]) for ds in csv(x)])
+    c3 = {"select": "CSelect", "selectspec": "CSelectSpec", "selcost": "CSelCost", "roots": "CRoots", "list": "CList", "listq": "CListq"}
+    if f[0] in c3 and len(f) == 3:
+        return app(c3[f[0]], *nodes(f[1]), cfg(f[2]))
+    cg = {"ancestors": "CAncestors", "descendants": "CDescendants", "direct": "CDirect"}
+    if f[0] in cg and len(f) == 4:
+        return app(cg[f[0]], nodes(f[1])[1], gn(f[3]))
+    if f[0] in ("deps", "rdeps") and len(f) == 5:
+        return app("CDeps" if f[0] == "deps" else "CRdeps", *nodes(f[1]), cfg(f[2]), gn(f[3]), gb(f[4] == "1"))
+    if f[0] == "owners" and len(f) == 4:
+        return app("COwners", nodes(f[1])[0], gl([s(t) for t in dots(f[3])]))
+    cc = {"cost": "CCost", "costv": "CCostv", "sets": "CSets"}
+    if f[0] in cc and len(f) == 4:
+        return app(cc[f[0]], graph(f[1]), gn(f[2]), gn(f[3]))
+    if f[:2] == ["family", "ladder"] and len(f) == 4:
+        return app("CLadder", gn(f[2]), gn(f[3]))
+    if f[:2] == ["family", "chain"] and len(f) == 3:
+        return app("CChain", gn(f[2]))
+    raise Unsupported(f[0])
+
+
+ENGINES["select"] = {"imports": "Str Label Graph Select", "gen": gen_select, "conv": conv_select}
+
+
+# ------------------------------------------------------------------ engine store (Store.v; ocaml/store/driver.ml)
+def gen_store(rng, n):
+    import store_ops as so
+    lines = []
+    while len(lines) < n:
+        k = rng.below(10)
+        if k < 6:     # op sequences over two machines, a remote and the fault lists (small contents only: every observation prints them)
+            line = so.gen_case_(rng, local_only=rng.chance(1, 4))
+            if rng.chance(1, 4):
+                f = line.split("\t")
+                f.insert(2, "lf=" + ",".join(rng.choice(["o", "o", "e", "l"]) for _ in range(1 + rng.below(4))))
+                line = "\t".join(f)
+            if rng.chance(1, 12):
+                line += "\tx:A:w:what"
+            lines.append(line)
+        elif k < 9:   # Layer 1: per target blob / result writes, a schedule and a fault per step
+            ts = []
+            for _ in range(1 + rng.below(3)):
+                ops = []
+                for _ in range(rng.below(4)):
+                    c = rng.choice(so.CONTENTS + [b"0123456789"])
+                    cut = sorted(rng.below(len(c) + 1) for _ in range(rng.below(3)))
+                    chunks = [c[a:b] for a, b in zip([0] + cut, cut + [len(c)])] if rng.chance(3, 4) else []
+                    if rng.chance(2, 3):
+                        ops.append("B:%s" % so.dg(c)[:8] + (":" + ".".join(hx(x) for x in chunks) if chunks or rng.chance(1, 2) else ""))
+                    else:
+                        refs = ".".join(so.dg(x)[:8] for x in rng.sample(so.CONTENTS, rng.below(3)))
+                        ops.append("R:%s" % rng.choice(so.RKEYS) + (":" + refs if refs or rng.chance(1, 2) else ""))
+                ts.append(";".join(ops))
+            nsteps = sum(t.count(";") + 1 for t in ts) * 7
+            sched = ",".join(str(rng.below(len(ts) + 1)) for _ in range(rng.below(nsteps + 1))) or "-"
+            faults = "".join("1" if rng.chance(1, 10) else "0" for _ in range(rng.below(nsteps + 1))) or "-"
+            lines.append("steps\t%s\t%s\t%s" % ("|".join(ts), sched, faults))
+        else:
+            ks = lambda: ",".join(rng.sample(["k1", "k2", "k3", "k4"], rng.below(4))) or "-"
+            lines.append("guard\t%s\t%s" % (ks(), ks()))
+    return lines[:n]
+
+
+def conv_store(line, st):
+    f = line.split("\t")
+    s = lambda b: intern(st, b if isinstance(b, bytes) else b.encode("latin-1"), 6)
+    path = {"cas": "PCas", "target": "PTarget", "taint": "PTaint"}
+    mach, mode = {"A": "MA", "B": "MB"}, {"l": "Local", "w": "Wrapped"}
+
+    def wop(o):
+        x = o.split(":")
+        if len(x) == 2 and x[0] == "reset":
+            return "Some %s" % par(app("Reset", mach[x[1]]))
+        a = None
+        if x[0] == "b" and len(x) >= 6:
+            m, md, verb, p, k, rest = x[1], x[2], x[3], path[x[4]], s(x[5]), x[6:]
+            a = {"get": lambda: app("AGet", p, k), "ex": lambda: app("AExists", p, k), "del": lambda: app("ADelete", p, k),
+                 "set": lambda: app("ASet", p, k, s(unhx(rest[0]))) if len(rest) == 1 else None}.get(verb, lambda: None)()
+        elif x[0] == "c" and len(x) >= 5:
+            m, md, verb, d, rest = x[1], x[2], x[3], s(x[4]), x[5:]
+            a = {"load": lambda: app("AGet", "PCas", d), "ex": lambda: app("ACasExists", d),
+                 "write": lambda: app("ACasWrite", d, s(unhx(rest[0]))) if len(rest) == 1 else None}.get(verb, lambda: None)()
+        elif x[0] == "r" and len(x) >= 5:
+            m, md, verb, k, rest = x[1], x[2], x[3], s(x[4]), x[5:]
+            a = {"load": lambda: app("AGet", "PTarget", k), "has": lambda: app("AExists", "PTarget", k),
+                 "write": lambda: app("ASet", "PTarget", k, s("r" + rest[0].replace(".", ",") if rest else "r")) if len(rest) <= 1 else None
+                 }.get(verb, lambda: None)()
+        else:
+            return "None"
+        if a is None:
+            raise Unsupported("store op the driver rejects")
+        return "Some %s" % par(app("Do", mach[m], mode[md], a))
+    if f[0] == "case":
+        rf = [] if f[1] in ("-", "") else [{"n": "FNone", "f": "FFail", "m": "FFail", "e": "FEarly", "4": "FNotFound"}[x] for x in f[1].split(",")]
+        ops, lf = f[2:], []
+        if ops and len(ops[0]) > 3 and ops[0].startswith("lf="):
+            lf, ops = [{"o": "LOk", "e": "LEarly", "l": "LLate"}[x] for x in csv(ops[0][3:])], ops[1:]
+        return app("CCase", gl(rf), gl(lf), gl([wop(o) for o in ops]))
+    if f[0] == "steps" and len(f) == 4:
+        def l1(o):
+            x = o.split(":")
+            if x[0] == "B" and len(x) in (2, 3):
+                return app("OBlob", s(x[1]), gl([s(unhx(c)) for c in (x[2].split(".") if len(x) == 3 and x[2] else [])]))
+            if x[0] == "R" and len(x) in (2, 3):
+                return app("OResult", s(x[1]), gl([s("r" + (x[2].replace(".", ",") if len(x) == 3 else ""))]))
+            raise Unsupported("l1 op")
+        opss = gl([gl([l1(o) for o in t.split(";")] if t else []) for t in f[1].split("|")])
+        return app("CSteps", opss, gl([gn(x) for x in csv("" if f[2] == "-" else f[2])]), gl([gb(c == "1") for c in ("" if f[3] == "-" else f[3])]))
+    if f[0] == "guard" and len(f) == 3:
+        return app("CGuard", *[gl([s(k) for k in csv("" if x == "-" else x)]) for x in f[1:]])
+    raise Unsupported(f[0])
+
+
+ENGINES["store"] = {"imports": "Str Store", "gen": gen_store, "conv": conv_store}
+
+
 # ------------------------------------------------------------------ command line
 def main(argv):
     if len(argv) < 2 or (argv[1] != "all" and argv[1] not in ENGINES):
